@@ -46,6 +46,12 @@ def mutants(data, rng, n, others=()):
             b = bytearray(data)
             b[i] = v
             add(b)
+    # letter case, one letter at a time (text protocols: where does case matter?)
+    for i in spots:
+        if 0x41 <= data[i] <= 0x5a or 0x61 <= data[i] <= 0x7a:
+            b = bytearray(data)
+            b[i] ^= 0x20
+            add(b)
     for v in ber_variants(data):
         add(v)
     n = n + len(out)
